@@ -46,7 +46,10 @@ def _short(v, n=160):
 
 class Sub:
     def __init__(self, name, run, strategy=None, enum=None, examples=None, known=None, doc='',
-                 enum_exhaustive_note=None):
+                 enum_exhaustive_note=None, ambient=()):
+        # ambient: names of module options ('bytealigned') that must NOT influence this sub-check; the engine turns them
+        # on in a quarter of the generated cases (key '_amb' of the case) before calling run().
+        self.ambient = tuple(ambient)
         self.name = name
         self.run = run
         self.strategy = strategy
@@ -127,6 +130,10 @@ def run_case(sub: Sub, case):
     """Returns ('ok', info) | ('known', finding_id) | ('fail', message) | ('harness', message)."""
     reset_options()
     try:
+        if isinstance(case, dict) and case.get('_amb'):
+            o = bitstring_module().options
+            for k, v in case['_amb'].items():
+                setattr(o, k, v)
         info = sub.run(case) or {}
         return 'ok', info
     except Violation as e:
@@ -236,11 +243,24 @@ def _shard_task(modname, subname, tier, seed, shard, nshards, budget_s):
         last_fail = {}
         hseed = (seed * 1000003 + shard * 7919 + int.from_bytes(hashlib.sha1(subname.encode()).digest()[:4], 'big')) & 0xFFFFFFFF
 
+        inner_strategy = base_strategy = sub.strategy(tier)
+        if sub.ambient:
+            from hypothesis import strategies as _st
+
+            @_st.composite
+            def with_ambient(draw):
+                c = draw(inner_strategy)
+                if isinstance(c, dict) and draw(_st.integers(0, 3)) == 0:
+                    c = dict(c)
+                    c['_amb'] = {k: True for k in sub.ambient}
+                return c
+            base_strategy = with_ambient()
+
         @hypothesis.seed(hseed)
         @settings(max_examples=n, database=None, deadline=None, derandomize=False, print_blob=False,
                   report_multiple_bugs=False, suppress_health_check=list(HealthCheck),
                   phases=[Phase.generate, Phase.shrink], verbosity=hypothesis.Verbosity.quiet)
-        @given(case=sub.strategy(tier))
+        @given(case=base_strategy)
         def prop(case):
             if budget_s and not last_fail and time.time() - t0 > budget_s:
                 raise _Stop()
